@@ -19,8 +19,20 @@ import subprocess
 
 from harness.lib.framework import Prop, coq_bool, coq_list, coq_N, coq_str
 
-INPUTS = {"a": "b", "b": "ab", "ab": "k", "k": "a", "h": "q", "c": 7, "t": True, "z": 0,
-          "q": {"h": "a", "p": "ab"}, "a b": "a", "class": "a", "default": "b", "'a'": "k", "a'b": "h"}
+# Three shapes of the inputs object (a case carries "inp": index; corpus cases without it use shape 0).  The
+# generator relies only on: a, b, ab, k, h, "a b" hold strings that are again field names; c, t truthy; z falsy; zz
+# absent; q an object with string fields h, p; arr an array of field names.  Arrays and nested objects are rendered
+# for the model as objects with string fields ("0", "1", ..); deeper nesting is not representable in the model.
+SHAPES = [
+    {"a": "b", "b": "ab", "ab": "k", "k": "a", "h": "q", "c": 7, "t": True, "z": 0,
+     "q": {"h": "a", "p": "ab"}, "a b": "a", "class": "a", "default": "b", "'a'": "k", "a'b": "h", "arr": ["b", "k"]},
+    {"a": "k", "b": "h", "ab": "a", "k": "b", "h": "ab", "c": "x", "t": 5, "z": "",
+     "q": {"h": "b", "p": "k", "r": "a"}, "a b": "k", "'a'": "a", "a'b": "b", "arr": ["a", "h", "ab"], "extra": 3},
+    {"a": "h", "b": "a", "ab": "b", "k": "ab", "h": "k", "c": 12, "t": "yes", "z": False,
+     "q": {"h": "k", "p": "a"}, "a b": "b", "class": "k", "default": "h", "'a'": "b", "a'b": "ab", "arr": ["k"],
+     "1": "a", "length": "b"},
+]
+INPUTS = SHAPES[0]
 RUNTIME = {"outdir": "/out", "tmpdir": "/tmp"}      # = gstore of JsDeps/Model.v; self is null
 STRF = ["a", "b", "ab", "k", "h"]          # string-valued fields whose values are again field names
 IDENT = re.compile(r"^[A-Za-z_][A-Za-z0-9_]*$")
@@ -180,7 +192,10 @@ def normalise(case):
             parts.append(["jsx", norm(p[1])])
         else:
             parts.append(p)
-    return {"f": case["f"], "lib": [norm_s(s) for s in case.get("lib", [])], "parts": parts}
+    out = {"f": case["f"], "lib": [norm_s(s) for s in case.get("lib", [])], "parts": parts}
+    if "inp" in case:
+        out["inp"] = case["inp"]
+    return out
 
 
 # ------------------------------------------------------------------------------------------------ Gallina
@@ -258,15 +273,17 @@ def cpart(p):
     return f"PJs (SRet (EParen {ce(p[1])}))"
 
 
-def cinputs():
+def cinputs(shape=0):
     out = []
-    for k, v in INPUTS.items():
+    for k, v in SHAPES[shape].items():
         if isinstance(v, bool):
             t = f"IBool {coq_bool(v)}"
         elif isinstance(v, int):
             t = f"INum {coq_N(v)}"
         elif isinstance(v, str):
             t = f"IStr {coq_str(v)}"
+        elif isinstance(v, list):
+            t = "IObj " + coq_list([f"({coq_str(str(i))}, {coq_str(b)})" for i, b in enumerate(v)])
         else:
             t = "IObj " + coq_list([f"({coq_str(a)}, {coq_str(b)})" for a, b in v.items()])
         out.append(f"({coq_str(k)}, {t})")
@@ -679,8 +696,10 @@ class Gen:
             return ["dot", ["id", "runtime"], rng.choice(["outdir", "tmpdir"])]
         if r < 0.45 and base:
             return self.access(base, rng.choice(STRF + ["a b"]))
-        if r < 0.52 and base:
+        if r < 0.49 and base:
             return ["dot", self.access(base, "q"), rng.choice(["h", "p"])]
+        if r < 0.52 and base:
+            return ["idx", self.access(base, "arr"), ["num", 0]]
         if r < 0.65 and ctx.strs:
             return ["id", rng.choice(ctx.strs)]
         if r < 0.78:
@@ -1021,7 +1040,11 @@ class C31(Prop):
                   "deletion, reserved-word fields, quote stripping, index-first references: reads lost). The model is tied "
                   "to /repo by running resolve_dependencies and the model listener on generated and on real-world "
                   "expressions, and to JavaScript by comparing the model evaluator's read set with node's.")
-    LEVEL_NOTE = ("partial: nested or shadowing functions, function expressions, method calls, and every construct "
+    LEVEL_NOTE = ("the positive theorems quantify over the evaluations of the MODEL evaluator that terminate normally: on "
+                  "in-fragment programs where it answers Unsup (numeric + on booleans/undefined, string characters, ...) "
+                  "they are vacuous and the read-set comparison with node is skipped; the evidence sample "
+                  "model_evaluator_support counts those cases per run; 'every inputs object' is a Coq statement, the "
+                  "harness exercises 3 shapes of inputs. partial: nested or shadowing functions, function expressions, method calls, and every construct "
                   "outside the modelled ES5 subset (object/array literals, comments, operators other than + and ?:, loops, "
                   "null/throw) are exercised by the correspondence/oracle only; of the expressions found in real .cwl files "
                   "16/20 (/repo) and 87/160 (cwltool, cwl_utils test data) lie in the proved fragment; the evidence sample "
@@ -1075,6 +1098,7 @@ class C31(Prop):
             else:
                 c = g.js_case(rng.choice(HAZARDS))
             c = normalise(c)
+            c["inp"] = rng.randrange(len(SHAPES))
             if _valid(c) and _ascii_ok(json.dumps(c)):
                 cases.append(c)
         return cases
@@ -1109,7 +1133,7 @@ class C31(Prop):
             def eval(self, scan, jslib="", **kw):
                 code = cwl_utils.sandboxjs.code_fragment_to_js(scan, jslib)
                 prop.node_busy = True
-                prop.node.stdin.write(json.dumps({"code": code, "inputs": INPUTS, "runtime": RUNTIME,
+                prop.node.stdin.write(json.dumps({"code": code, "inputs": prop.inputs, "runtime": RUNTIME,
                                                   "universal": prop.universal}) + "\n")
                 prop.node.stdin.flush()
                 out = json.loads(prop.node.stdout.readline())
@@ -1133,6 +1157,7 @@ class C31(Prop):
         text = render(c)
         lib = c["lib_text"] if "lib_text" in c else [ps(s) for s in c.get("lib", [])]
         self.universal = c["f"] == "realworld"
+        self.inputs = SHAPES[c.get("inp", 0)]
         o = {"text": text}
         try:
             o["deps"] = sorted(self.cu.resolve_dependencies(text, full_js=True, expression_lib=lib or None))
@@ -1141,7 +1166,7 @@ class C31(Prop):
                 raise
             o["deps_err"] = type(e).__name__
         self.reads = []
-        ctx = self.ctypes.CWLParameterContext(inputs=self.Rec(INPUTS), self=None, runtime=dict(RUNTIME))
+        ctx = self.ctypes.CWLParameterContext(inputs=self.Rec(self.inputs), self=None, runtime=dict(RUNTIME))
         try:
             self.cex.interpolate(text, ctx, jslib="\n".join(lib), fullJS=True, js_engine=self.Engine())
             o["ok"] = True
@@ -1207,8 +1232,55 @@ class C31(Prop):
         st_[3] += has_js and in_fragment_alias(c)
         st_[4] += has_js and in_fragment_funs(c)
         st_[5] += has_js and in_fragment_T(c)
-        return (f"CCase {css(c.get('lib') or [])} {coq_list([cpart(p) for p in c['parts']])} "
-                f"{cinputs()} {d} {e} {coq_bool(frag)}")
+        term = (f"CCase {css(c.get('lib') or [])} {coq_list([cpart(p) for p in c['parts']])} "
+                f"{cinputs(c.get('inp', 0))} {d} {e} {coq_bool(frag)}")
+        if len(self._terms) < 250:
+            self._terms.append(term)
+        return term
+
+    _terms: list = []
+
+    def _eval_counts(self):
+        """How often the model evaluator answers Unsup/NoFuel (the read-set comparison is then skipped): one extra
+        coqc evaluation of Corr.eval_counts over (at most 250 of) the case terms of this run."""
+        import re as _re
+        import subprocess as _sp
+        import tempfile
+
+        from harness.lib.framework import BUILD, COQ_DIR
+        if not self._terms:
+            return None
+        d = os.path.join(BUILD, "corr")
+        os.makedirs(d, exist_ok=True)
+        fn = os.path.join(d, f"cnt_C31_{os.getpid()}.v")
+        with open(fn, "w") as f:
+            f.write("From Coq Require Import List NArith ZArith String.\n")
+            f.write("From SF Require Import Base.Str Base.Corr JsDeps.Corr.\nImport ListNotations.\n")
+            f.write("Definition cases : list ccase :=\n [ " + "\n ; ".join(self._terms) + " ].\n")
+            f.write("Eval vm_compute in (eval_counts cases).\n")
+        try:
+            r = _sp.run(["coqc", "-Q", os.path.join(COQ_DIR, "theories"), "SF", fn], capture_output=True, text=True,
+                        timeout=900)
+            m = _re.search(r"= \((\d+), (\d+), (\d+), (\d+)\)", " ".join(r.stdout.split()))
+            out = None
+            if m:
+                a, b, c_, d_ = map(int, m.groups())
+                out = {"cases_counted": len(self._terms), "with_an_observed_evaluation": a,
+                       "answered_by_the_model_evaluator": b, "model_answered_Unsup_or_NoFuel(read sets not compared)": a - b,
+                       "in_a_proved_fragment": c_, "in_a_proved_fragment_and_answered": d_,
+                       "in_a_proved_fragment_but_Unsup(theorem vacuous there)": c_ - d_}
+        except Exception as e:  # noqa: BLE001
+            out = {"error": str(e)[:200]}
+        for ext in (".v", ".vo", ".vok", ".vos", ".glob"):
+            try:
+                os.remove(fn[:-2] + ext)
+            except OSError:
+                pass
+        try:
+            os.remove(os.path.join(d, "." + os.path.basename(fn)[:-2] + ".aux"))
+        except OSError:
+            pass
+        return out
 
     _frag: dict = {}
     _real: dict = {}
@@ -1225,7 +1297,10 @@ class C31(Prop):
         for k in real:
             real[k]["outside_the_proved_fragment_because"] = dict(sorted(self._why.get(k, {}).items(),
                                                                          key=lambda kv: -kv[1]))
-        return [{"realworld_expressions(repo = *.cwl under /repo; pkg = cwltool/tests + cwl_utils/testdata)": real,
+        return [{"model_evaluator_support": self._eval_counts(),
+                 "inputs_shapes": f"{len(SHAPES)} shapes of the inputs object (strings/numbers/booleans/empty string, a "
+                                  "nested object, an array, fields named length and 1), chosen per generated case",
+                 "realworld_expressions(repo = *.cwl under /repo; pkg = cwltool/tests + cwl_utils/testdata)": real,
                  "fragment_membership": tot,
                  "note": "cases (per kind) that lie inside the syntactic fragment on which C31_sound_partial is proved; "
                          "the flag is recomputed by Corr.check_case with the model's in_fragment, and for those cases "
